@@ -11,24 +11,6 @@ its two ways of ending on a `LenaKeyError`, and stale `_static_context`s) leads 
 namespace Lena.C13
 open Lena Lena.Val
 
-/-- the contexts that get past `t` -/
-def pastT (n : Nat) (t : Tree) (F : List Ctx) : List Ctx := F.filterMap (fun c => (fold n t c).toOption)
-
-mutual
-def final (n : Nat) : Tree → List Ctx → St
-  | .leaf e, F => leafFinal n e (lastD n F)
-  | .seq kind cs, F => .seq kind (finalL n cs F) (SC.ofExcept (foldL n cs (lastD n F)))
-  | .split bs, F => .split (finalB n bs F)
-/-- children of a sequence; `F`: the contexts that reach the first of them -/
-def finalL (n : Nat) : List Tree → List Ctx → List St
-  | [], _ => []
-  | t :: ts, F => final n t (Val.empty n :: F) :: finalL n ts (pastT n t F)
-/-- branches of a `Split` -/
-def finalB (n : Nat) : List Tree → List Ctx → List St
-  | [], _ => []
-  | b :: bs, F => final n b (Val.empty n :: F) :: finalB n bs F
-end
-
 /-! ## the specification fold: monotone, length-preserving -/
 
 mutual
